@@ -292,7 +292,18 @@ class Unit:
             if r2 == "unsat":
                 verdict, solver = "discharged", "cvc5"
             else:
-                verdict = "undecided"
+                # last rung before giving up: the full query once more with another seed and three times the budget (solver budgets are
+                # wall-clock: on a machine whose cores are all busy a query that normally takes 15 s must not flip to undecided)
+                s3 = z3.Solver()
+                s3.set("timeout", 3 * self.timeout_ms)
+                s3.set("random_seed", 3)
+                s3.set("smt.random_seed", 3)
+                for c in pc:
+                    s3.add(c)
+                s3.add(z3.Not(goal))
+                verdict = "discharged" if s3.check() == z3.unsat else "undecided"
+                if verdict == "discharged":
+                    solver = "z3 (extended budget)"
         dt = time.time() - t0
         self.solver_s += dt
         rec = {"name": name, "function": fnq, "verdict": verdict, "solver": solver, "seconds": round(dt, 3)}
